@@ -833,7 +833,7 @@ func init() {
 				bodyFill = []string{"", "noff", "", "zero", "noff", "ff", "", "noff"}[rep%8]
 				icc := []byte(nil)
 				if rng.Intn(2) == 0 {
-					icc = genProfile(rng, pick(rng, 300, 3000, 5000, 70000), rng.Intn(2) == 0)
+					icc = genProfile(rng, pick(rng, 300, 3000, 5000, 70000, 131, 3143, 70001), rng.Intn(2) == 0)
 				}
 				nAnc := rng.Intn(4)
 				f := buildPNG(rng, pngOpt{w: 100, h: 100, depth: 8, ctype: 2, nAnc: nAnc, icc: icc, iccName: "p", iccLevel: 6, iccPos: rng.Intn(nAnc + 1), body: body, smallAnc: rng.Intn(2) == 0})
